@@ -49,7 +49,8 @@ def product_for_init():
 REPRS = ["ONEONE", "ZERO", "CENTER", "TILDE"]
 
 
-def scenario_1d(tid, kind, grid, atoms, rng, lattice, unit, a_u=0, repr_name="ONEONE", fv=True, sigma_u=0, prior_grid=None):
+def scenario_1d(tid, kind, grid, atoms, rng, lattice, unit, a_u=0, repr_name="ONEONE", fv=True, sigma_u=0, prior_grid=None,
+                pre_ops=()):
     from rpylib.distribution.sampling import SamplingMethod
     from rpylib.distribution.samplingfactory import create_q_vector
     from rpylib.model.levymodel.levymodel import LevyRepresentation
@@ -70,6 +71,15 @@ def scenario_1d(tid, kind, grid, atoms, rng, lattice, unit, a_u=0, repr_name="ON
     try:
         model = atomic.AtomLevyModel(atoms, sigma=sigma_u * U, a=a_u * U, representation=LevyRepresentation[repr_name],
                                      finite_variation=fv, unit=unit)
+        for op in pre_ops:
+            # the user's model went through drift queries / re-declarations before the chain is built; it ends in the
+            # representation it was declared in (conversions are reversible: C10)
+            if op == "query":
+                model.levy_triplet.canonical_drift(); model.levy_triplet.center_drift()
+            else:
+                model.levy_triplet.set_representation(LevyRepresentation[op])
+        if pre_ops:
+            model.levy_triplet.set_representation(LevyRepresentation[repr_name])
         if prior_grid is not None:
             # the same model object already served a chain on another (narrower) grid
             MarkovChainProcess(model=model, method=SamplingMethod.BINARYSEARCHTREE, grid=prior_grid).initialisation(product_for_init())
@@ -98,6 +108,16 @@ def scenario_1d(tid, kind, grid, atoms, rng, lattice, unit, a_u=0, repr_name="ON
                   "eqvar_u2": exact_int(float(proc.equivalent_diffusion_coefficient) ** 2 / (U * U), tol=1e-9)}
             dr["bad"] = count_bad(dr)
             ev.append(dr)
+        else:
+            # non-lattice grid: the mean identity on positions quantised to 1e-5 (thin): ONEONE declaration, a = 0
+            from harness.encode import quantise
+            proc.initialisation(product_for_init())
+            QU = 1e-5
+            dq = {"e": "DriftQ", "drift_q": quantise(float(proc.process_drift()), QU), "x_q": [quantise(float(x), QU) for x in axes[0]],
+                  "q": [exact_int(x) for x in q], "atoms_q": [[quantise(float(k), QU), int(w)] for k, w in atoms],
+                  "lo_q": quantise(float(axes[0][0]), QU), "hi_q": quantise(float(axes[0][-1]), QU), "one_q": quantise(1.0, QU)}
+            dq["bad"] = count_bad(dq)
+            ev.append(dq)
     except Exception as ex:
         ev.append({"e": "Raise", "what": type(ex).__name__ + ": " + str(ex)[:80]})
     return {"tid": tid, "hdr": hdr, "ev": ev}
@@ -204,6 +224,17 @@ def main():
         ci += 1
         traces.append(scenario_1d(tid(), "lattice1d:wide", grid, atoms, rng, True, U, a_u=rng.randint(-40, 40), repr_name=r,
                                   fv=fv, sigma_u=rng.choice([0, 8])))
+    # the model went through drift queries and re-declarations before the chain is built
+    for rep in range(4 if quick else 16):
+        step = 16
+        nl, nr = rng.randint(1, 4), rng.randint(1, 4)
+        g = CTMCGrid(h=step * U, origin_coordinate=nl, axes=[np.array([j * step * U for j in range(-nl, nr + 1)])])
+        atoms = atomic.atoms_everywhere(-80, 80, rng, wmax=4)           # atoms beyond the grid and beyond +-1 (64 units)
+        r, fv = combos[ci % len(combos)]
+        ci += 1
+        allowed = [x for x in REPRS if fv or x != "ZERO"]
+        ops = [rng.choice(["query"] + allowed) for _ in range(rng.randint(1, 3))]
+        traces.append(scenario_1d(tid(), "lattice1d:preops", g, atoms, rng, True, U, a_u=rng.randint(-20, 20), repr_name=r, fv=fv, pre_ops=ops))
     # the same model object used for a chain on a narrow grid first, then for the chain under observation on a wider one
     for rep in range(3 if quick else 10):
         step = 16
